@@ -22,8 +22,8 @@ CLAIMED = {
    "DESIGN.md §6 C13",
    "Lean kernel; axioms propext/Classical.choice/Quot.sound only; hand-written model tied by correspondence; Prec as Nat (u32 overflow out of scope).",
    "Lean 4 model + simulation proof against shunting-yard + random correspondence with PrattParser/ConstPrattParser/PrecClimber"),
- "C03": ("other",
-   "Lean 4 model of the whole ParserState (position primitives incl. both skip_until paths, token queue, look-ahead/atomicity flags, attempts, call limit, snapshot stack, ParseAttempts) as an interpreter of call trees over every public operation; theorems stated and being proved (sequence_err_restores, lookahead_restores, rule_ok_emits/rule_err_truncates/rule_silent, run_wf, run_queue, run_saved, run_no_panic, primitive specs, skipUntil_memchr_eq_basic); tied to the code by correspondence on the complete state snapshot (hook H1) after random call trees, in two builds (default, pest without memchr), with the contracts also evaluated directly on the real snapshots as oracle.",
+ "C03": ("proof",
+   "Lean 4 model of the whole ParserState (position primitives incl. both skip_until paths, token queue, look-ahead/atomicity flags, attempts, call limit, snapshot stack, ParseAttempts) as an interpreter of call trees over every public operation; 26 kernel-checked theorems for every call tree, input, fuel, call limit and detail setting: sequence_err_restores, lookahead_restores, rule_ok_emits/rule_err_truncates/rule_silent, run_wf, run_queue, run_queue_lookahead, run_saved, restoreOnErr_restores, stackPush_pushes_span, run_no_panic, the primitive specs (matchString/Insensitive/Range/CharBy/skip/skipUntil/peekSlice/normalizeIndex/matchAll) and skipUntil_memchr_eq_basic; tied to the code by correspondence on the complete state snapshot (hook H1) after random call trees, in two builds (default, pest without memchr), with the contracts also evaluated directly on the real snapshots as oracle.",
    "DESIGN.md §6 C03",
    "Lean kernel; axioms propext/Classical.choice/Quot.sound only; hand-written model tied by correspondence; byte-level matching modelled at character level; hook H1 trusted to print the state faithfully.",
    "Lean 4 model of ParserState + invariant proofs + snapshot correspondence on random call trees (hook H1), memchr on/off"),
